@@ -83,7 +83,7 @@ func execWorkload(dir string, w *Workload, sched simrt.Schedule, fsPlan *simrt.F
 	ex := Simulate(sched, fsPlan, pipelineMaxTicks, func() error {
 		var err error
 		opts.FinalPasses = w.FinalPasses
-		obs, err = RunPipeline(cfg, w.Params, opts)
+		obs, err = RunPipeline(cfg, w.ExtraParams(), opts)
 		return err
 	})
 	sum := map[string]string{}
@@ -336,7 +336,7 @@ func rerunSamePipeline(dir string, w *Workload) (string, []string, *Exec) {
 	var a, b map[string]string
 	ex := Simulate(simrt.Schedule{Default: simrt.Canonical}, nil, pipelineMaxTicks, func() error {
 		resetGlobals()
-		p, err := codegen.PipelineFromFile(cfg, codegen.Parameters(w.Params))
+		p, err := codegen.PipelineFromFile(cfg, codegen.Parameters(w.ExtraParams()))
 		if err != nil {
 			return err
 		}
@@ -389,6 +389,8 @@ func init() {
 				w = GenCueImportsWorkload(r)
 			} else if idx%16 == 3 {
 				w = GenFactoriesWorkload(r)
+			} else if idx%16 == 11 {
+				w = GenSharedOptionWorkload(r)
 			} else if r.Chance(2, 3) {
 				EnrichWorkload(r.Fork("enrich"), w, dir)
 			}
